@@ -77,6 +77,9 @@ def step (_ : Unit) (line : String) : Unit × String :=
     | some sI, some sT =>
       ((), showEdits (moduleEdits (parseLocs li) (parseLocs lt) (rndOf (parseTable ri)) (rndOf (parseTable rt)) sI sT))
     | _, _ => ((), "out-of-fuel")
+  -- `mfull <hex of the printed new module>` = moduleDiffEdits with different comment stores
+  | ["mfull", h] =>
+    ((), showEdits (moduleDiffEdits (α := Int) (β := Int) false (bytesOfHex h) [] [] (fun _ => []) (fun _ => []) [] []))
   -- `cadec <covers 0/1> <lookup module> <doc module> <bits: module declares the name>`: offered per module
   | ["cadec", cov, lookup, docm, bits] =>
     ((), String.ofList (bits.toList.map fun b =>
